@@ -176,7 +176,23 @@ class ElementProxy(Sequence):
                 except IndexError:
                     element = self.element_list.create_element(self.element_name, traversal_parent=True)
             if name == 'value':
+                # elements created while navigating become real children now; if the value is then refused they
+                # go back to being navigation-only, so that a failed assignment leaves nothing behind
+                promoted = []
+                e = element
+                while e is not None and e.parent is None and e.traversal_parent is not None:
+                    promoted.append((e, e.traversal_parent))
+                    e = e.traversal_parent
                 element.set_parent_to_traversal()
+                try:
+                    setattr(element, name, value)
+                except Exception:
+                    for e, traversal_parent in promoted:
+                        traversal_parent.children.remove(e)
+                        e.parent = None
+                        e.traversal_parent = traversal_parent
+                    raise
+                return
             setattr(element, name, value)
 
     def __setitem__(self, index, value):
